@@ -14,7 +14,8 @@ CHECK = dict(
         dict(name="cmd", dir=D + "cmd", src="C20/cmd", runs=[
             dict(name="singles", run="^TestVerifC20Singles$", quick=0, thorough=0),
             dict(name="switches", run="^TestVerifC20Switches$", quick=0, thorough=0),
-            dict(name="mutate", run="^TestVerifC20Mutate$", quick=4000, thorough=400000, shards_quick=2, shards_thorough=8),
+            dict(name="thresholds", run="^TestVerifC20Thresholds$", quick=0, thorough=0),
+            dict(name="mutate", run="^TestVerifC20Mutate$", quick=4000, thorough=320000, shards_quick=2, shards_thorough=8),
         ]),
     ],
 )
